@@ -3,6 +3,7 @@ import itertools
 from vlib.defs import Item, Variant, Field, DISABLED
 from vlib.run import Corpus
 from vlib import structs as T
+from vlib import strings as S
 
 ID = "C05"
 PROP_FILE = "Props/C05.v"
@@ -20,7 +21,14 @@ MAXU = 2 ** 64 - 1
 
 
 def crate_configs(tier):
-    return [{"name": "c05d", "release": False}, {"name": "c05r", "release": True}]
+    return [{"name": "c05d", "release": False}, {"name": "c05r", "release": True}, {"name": "c05probe", "kind": "genprobe"}]
+
+
+def query_in_config(cfg, kind, args):
+    return (kind == "struct") == (cfg.get("kind") == "genprobe")
+
+
+probe_command = S.struct_probe_command
 
 
 def mk(n_enabled, disabled_mask=0, payload=False, generic=False):
@@ -71,6 +79,7 @@ def build_corpus(tier, rng):
     defs.append((4, mk(4, disabled_mask=0b11, payload=True, generic=True), "generic"))
     for n, it, fam in defs:
         k = c.add_def(it, family=fam, derives=["EnumIter"], n=n)
+        c.add_q(k, "struct", ["EnumIter"], note="structure")
         ks = sorted(set(list(range(0, n + 2)) + [MAXU - 1, MAXU, 2 ** 63, 2 ** 32]))
         alphabet = ["n", "b", "l", "h"] + ["t%d" % x for x in ks] + ["u%d" % x for x in ks]
         # (a) state cover
@@ -120,6 +129,8 @@ def render_def(k, it, meta, cfg):
 
 
 def compare(corpus, k, kind, args, note, iobs, mobs, cfg):
+    if kind == "struct":
+        return S.compare_struct(corpus, k, iobs, mobs)
     parts = dict(p.split("=", 1) for p in mobs.split("|"))
     want = parts["release" if cfg.get("release") else "debug"]
     return iobs == want, True, "expected %s" % want
@@ -130,6 +141,7 @@ def extra_coverage(corpus, tier):
     for q in corpus.queries:
         notes[q[4]] = notes.get(q[4], 0) + 1
     n = {corpus.meta[k]["n"] for k in corpus.defs}
-    return {"history_kinds": notes, "enabled_variant_counts": sorted(n),
+    d0 = S.struct_coverage()
+    return {"structural_tie": d0["structural_tie"], "history_kinds": notes, "enabled_variant_counts": sorted(n),
             "states": sum((m["n"] + 2) ** 2 for m in corpus.meta.values()),
             "send_sync": "assert_send_sync::<EIter<Rc<()>>>() compiled in every definition (compile check, not proof)"}
